@@ -114,6 +114,26 @@ def run(ctx):
     # logs are truncated oldest first (a power loss between two truncations must leave a suffix-closed set of logs:
     # an older log surviving while a newer one is gone would be replayed over newer flushed state)
     shared.queue_discipline(ctx, '3q')
+    # every table the applier may write to is msynced by the column flush that precedes log truncation: besides the current index,
+    # the value tables and the current ref-count table these are the OLD index / ref-count tables still queued for re-indexing
+    # (HashColumn::enact_plan writes into them for records planned before the growth, and replay does at open)
+    hf, he = ctx.body('column::HashColumn::flush'), F.body('column::HashColumn::enact_plan')
+    if hf and he:
+        writes_old = [lp for lp in lib.for_loops_over(he)] or True
+        applier_uses_queue = any('.Reindex.queue' in lib.receiver_fields(he, t, 0) for _, t in he.calls() if t['a'])
+        ctx.ob('2m0 applier-writes-queued-tables', 'anchor', he.path, 'the applier looks tables up in the reindex queue', applier_uses_queue, '')
+        for kind, callee in (('index', 'index::IndexTable::flush'), ('ref-count', 'ref_count::RefCountTable::flush')):
+            sites = lib.sites_reaching(hf, [callee])
+            inq = []
+            for lp in lib.for_loops_over(hf, '.Reindex.queue'):
+                if any(x in hf.reachable_from([lp['some']], removed={lp['head']}) for x in sites):
+                    inq.append(lp)
+            # iterator forms: queue.iter().try_for_each / for_each with a closure that flushes
+            itf = [bi for bi, t in hf.calls() if bi in hf.normal_blocks() and t['a'] and '.Reindex.queue' in lib.receiver_fields(hf, t, 0) and any(F.body(c) is not None and lib.sites_reaching(F.body(c), [callee]) for c in lib.closure_operands(hf, t))]
+            w = hf.find_path([0], hf.return_blocks(), removed=set(lp['head'] for lp in inq) | set(itf) | core.error_exit_blocks(hf)) if (inq or itf) else ['?']
+            ctx.ob('2m queued-%s-tables-flushed' % kind, 'K2-loop-order', hf.path,
+                   'HashColumn::flush msyncs every %s table in the reindex queue on every success path (the applier writes into them; their logs are truncated after this flush)' % kind,
+                   w is None, 'the flush never visits the reindex queue' if not (inq or itf) else 'success path that skips the queued tables')
     # ---------------------------------------------------------------- 4. remap flushes the old mapping
     g = ctx.body('file::TableFile::grow')
     if g:
